@@ -26,7 +26,7 @@ func init() {
 		Doc: "a batch reaches the transaction function whole: no caller splits it over several transactions", Run: runTxBatch})
 	reg(&core.RuleInfo{Name: "BATCH-ALL", Props: []string{"C06", "C14"}, Engine: "CFG", Floor: 1, Confirmed: 1,
 		Doc: "an event of a batch is skipped only for the recognised reasons (not stored kind, unencodable)", Run: runBatchAll})
-	reg(&core.RuleInfo{Name: "TX-5", Props: []string{"C14"}, Engine: "PROV", Floor: 2, Confirmed: 3,
+	reg(&core.RuleInfo{Name: "TX-5", Props: []string{"C14", "C06"}, Engine: "PROV", Floor: 2, Confirmed: 3,
 		Doc: "the hash seed returned is the seed persisted; the handler's seed comes only from there", Run: runTx5})
 }
 
@@ -534,6 +534,15 @@ func runTx5(c *core.Ctx) {
 				case !afterInsert && !an.Reachable(ins.Block(), rb, nil, nil) && seedFromLoader(seedFn, resolveRet(r.Results[0], nil), rb):
 					// no insert on this way out: the stored seed, read by a loader helper that says whether
 					// there was one (`seed, ok, err := LoadSeed(ctx, db); … if ok { return seed, nil }`)
+				case !afterInsert && !an.Reachable(ins.Block(), rb, nil, nil) && seedFromLoader2(seedFn, resolveRet(r.Results[0], nil), rb) != nil:
+					// no insert on this way out: the stored seed through a `(seed, err)` loader whose error is
+					// the Scan's own (`seed, err := loadSeed(ctx, db); if err == nil { return seed, nil }`)
+				case afterInsert && onlyIfEmpty && !inTx && func() bool {
+					lc := seedFromLoader2(seedFn, resolveRet(r.Results[0], nil), rb)
+					return lc != nil && an.InstrDominates(ins, lc)
+				}():
+					// insert-if-empty, then the stored seed read back through the same loader
+					bound = an.PathOf(elems[0])
 				case afterInsert && onlyIfEmpty && readBack != nil && loadedVar != nil && loadOf(r.Results[0]) == loadedVar && holdsScanned(seedFn, loadedVar, rb, readBack) && (!inTx || seedTxCommitted(seedFn, rb)):
 					// insert-if-empty, then the stored seed read back (and, in a transaction, committed):
 					// whoever inserted, the value returned is the one row of the table
@@ -573,7 +582,13 @@ func runTx5(c *core.Ctx) {
 				return
 			}
 			n++
-			if !strings.HasPrefix(an.PathOf(st.Val), "call:"+an.FuncFullName(seedFn)+"(") {
+			fromSeedFn := false
+			if ex, isEx := st.Val.(*ssa.Extract); isEx && ex.Index == 0 {
+				if cl, isC := ex.Tuple.(*ssa.Call); isC && sameFunc(an.StaticCallee(&cl.Call), seedFn) {
+					fromSeedFn = true
+				}
+			}
+			if !fromSeedFn && !strings.HasPrefix(an.PathOf(st.Val), "call:"+an.FuncFullName(seedFn)+"(") {
 				bad = append(bad, an.PathOf(st.Val)+" at "+P.Pos(st.Pos()))
 			}
 		})
@@ -1103,6 +1118,63 @@ func defaultOffParam(c *core.Ctx, par *ssa.Parameter, depth int) bool {
 // and rb is reached only with ok true and err nil — whose every (·, true, nil) return hands out the
 // variable the seed table's row was scanned into, on paths where that Scan succeeded. Presence is
 // told by the bool, never by the seed's value (0 is a seed like any other).
+// seedFromLoader2: v is result #0 of a call (in fn) of a private helper `(seed, err)` that is nothing
+// but `QueryRow("select seed from xxhash_seed").Scan(&seed); return seed, err` — the error handed out
+// is the Scan's own — and rb is reached only with that error nil. Returns the call.
+func seedFromLoader2(fn *ssa.Function, v ssa.Value, rb *ssa.BasicBlock) *ssa.Call {
+	ex, ok := v.(*ssa.Extract)
+	if !ok || ex.Index != 0 {
+		return nil
+	}
+	call, ok := ex.Tuple.(*ssa.Call)
+	if !ok {
+		return nil
+	}
+	g := an.StaticCallee(&call.Call)
+	if !an.PrivateHelper(g) || g.Signature.Results().Len() != 2 || len(g.Blocks) != 1 {
+		return nil
+	}
+	errNil := false
+	for _, gd := range an.Guards(fn, rb) {
+		gd = an.NormCond(gd)
+		if b, isB := gd.V.(*ssa.BinOp); isB && an.IsNilConst(b.Y) && (b.Op == token.EQL) == gd.True {
+			if e, isE := b.X.(*ssa.Extract); isE && e.Tuple == ssa.Value(call) && e.Index == 1 {
+				errNil = true
+			}
+		}
+	}
+	if !errNil {
+		return nil
+	}
+	var scan *ssa.Call
+	for _, ci := range calls(g) {
+		if c2, isC := ci.(*ssa.Call); isC && strings.HasSuffix(an.CalleeName(&c2.Call), "sql.Row).Scan") && strings.Contains(an.PathOf(c2.Call.Args[0]), "select seed from xxhash_seed") {
+			scan = c2
+		}
+	}
+	if scan == nil {
+		return nil
+	}
+	dst, _ := an.VariadicElems(scan.Call.Args[len(scan.Call.Args)-1])
+	if len(dst) != 1 {
+		return nil
+	}
+	d := dst[0]
+	if mi, isMI := d.(*ssa.MakeInterface); isMI {
+		d = mi.X
+	}
+	loaded, _ := d.(*ssa.Alloc)
+	ret, isRet := an.LastInstr(g.Blocks[0]).(*ssa.Return)
+	if loaded == nil || !isRet || len(ret.Results) != 2 {
+		return nil
+	}
+	ld, isLd := ret.Results[0].(*ssa.UnOp)
+	if !isLd || ld.Op != token.MUL || ld.X != ssa.Value(loaded) || ret.Results[1] != ssa.Value(scan) {
+		return nil
+	}
+	return call
+}
+
 func seedFromLoader(fn *ssa.Function, v ssa.Value, rb *ssa.BasicBlock) bool {
 	ex, ok := v.(*ssa.Extract)
 	if !ok || ex.Index != 0 {
